@@ -53,6 +53,35 @@ def decode_pyramid(p, mu, dim):
     return w
 
 
+QCQP_KEY = ("noslip elliptic: QCQP reports an infeasible unconstrained friction solution as inactive, so it is not projected "
+            "onto the friction ellipsoid")
+QCQP_NOTE = ("mju_QCQP* leave the Newton iteration with la == 0 when the first multiplier update is < 1e-10 (tiny A after R is "
+             "subtracted in noslip) although val = |x|^2 - r^2 > 0; solveQCQP then skips projectEllipsoid")
+
+
+def noslip_unconstrained_outside(lib, m, d, f, i, dim, mu):
+    """Diagnosis of one root cause (one canonical key).  At the returned forces, rebuild the noslip friction sub-problem of
+    the elliptic contact starting at row i (normal fixed, R removed): A_TT = (J M^-1 J')_TT, bc = b_T + (A f)_T - A_TT f_T.
+    If the returned f_T is the *unconstrained* minimiser -A_TT^-1 bc, the QCQP was treated as inactive."""
+    P = C.Problem(lib, m, d)
+    A = P.J @ np.linalg.solve(P.M, P.J.T)
+    b = P.J @ P.a0 - P.aref
+    T = slice(i + 1, i + dim)
+    ATT = np.array(A[T, T])
+    for k in range(dim - 1):
+        ATT[k, k] = max(1e-10, ATT[k, k])
+    bc = b[T] + A[T, :] @ f - ATT @ f[T]
+    try:
+        x = -np.linalg.solve(ATT, bc)
+    except np.linalg.LinAlgError:
+        return None
+    rel = float(np.abs(x - f[T]).max() / max(1e-300, np.abs(f[T]).max()))
+    if rel <= 1e-6:
+        return {"cone_first_row": int(i), "dim": int(dim), "rel_diff_to_unconstrained": rel,
+                "efc_force_block": f[i:i + dim].tolist()}
+    return None
+
+
 def check_forces(lib, host, part, desc, replay):
     """All C11 oracles on the current mjData.  desc: (cone, solver, noslip) names for the violation key."""
     m, d = host.m, host.d
@@ -98,7 +127,19 @@ def check_forces(lib, host, part, desc, replay):
             if fn < -tol:
                 bad("elliptic normal force negative", "f_N = %.3g (dim %d)" % (fn, dim))
             elif ft > fn + tol:
-                bad("elliptic friction outside cone", "sqrt(sum (f_j/mu_j)^2) - f_N = %.3g (dim %d)" % (ft - fn, dim))
+                diag = noslip_unconstrained_outside(lib, m, d, f, i, dim, mu) if noslip == "on" else None
+                if diag is not None:
+                    rp = dict(replay)
+                    rp.update(diag)
+                    rp["minimal_note"] = QCQP_NOTE
+                    C.report(part, QCQP_KEY, "noslip, elliptic condim %d: returned friction = unconstrained minimiser of the noslip "
+                             "sub-problem (rel diff %.2g), which lies outside the ellipsoid: sqrt(sum (f_j/mu_j)^2) - f_N = %.3g "
+                             "(f_N = %.6g, rel %.2g; %s; mix=%s eq=%s skel=%s)" % (
+                                 dim, diag["rel_diff_to_unconstrained"], ft - fn, fn, (ft - fn) / max(fn, 1e-300), tag,
+                                 "+".join(host.atoms), host.eqkind, host.skel), rp)
+                    part.add("noslip_qcqp_inactive_outside")
+                else:
+                    bad("elliptic friction outside cone", "sqrt(sum (f_j/mu_j)^2) - f_N = %.3g (dim %d)" % (ft - fn, dim))
             i += dim
         else:
             i += 1
